@@ -208,6 +208,12 @@ pub fn visit(ctx: &BoardCtx, p: &Pos) {
             return;
         }
     };
+    // Every judged state comes right after other work on this thread: on every sixteenth state the
+    // whole API is first exercised on an unrelated board (rejected requests included), so that
+    // per-thread scratch state of any of these functions is "dirty" when the judged calls are made.
+    if ctx.states.load(std::sync::atomic::Ordering::Relaxed) % 16 == 0 {
+        let _ = guarded(|| foreign_activity());
+    }
     let r = guarded(|| match ctx.prop {
         Prop::C01 => c01(ctx, p, &fen, &mut b),
         Prop::C02 => c02(ctx, p, &fen, &mut b),
@@ -220,6 +226,51 @@ pub fn visit(ctx: &BoardCtx, p: &Pos) {
     if let Err(msg) = r {
         ctx.viol(format!("panic:{}", short(&msg)), &fen, json!({"panic": msg}));
     }
+}
+
+/// a fixed round of calls on two unrelated boards (one per colour to move)
+fn foreign_activity() {
+    thread_local! {
+        static BOARDS: std::cell::RefCell<Vec<Bitboard>> = std::cell::RefCell::new(Vec::new());
+        static TURN: std::cell::Cell<usize> = std::cell::Cell::new(0);
+    }
+    BOARDS.with(|bs| {
+        let mut bs = bs.borrow_mut();
+        if bs.is_empty() {
+            for f in ["r3k2r/pP4pp/2n3n1/3pP3/1N1QQ1N1/8/PP3RPP/R3K2R w KQkq d6 7 21", "r3k2r/pp4pp/2n1q1n1/8/1N1pP1N1/8/PPp3PP/R3K2R b KQkq e3 0 33"] {
+                if let Ok(b) = Bitboard::from_fen_string(f) {
+                    bs.push(b);
+                }
+            }
+        }
+        if bs.is_empty() {
+            return;
+        }
+        let i = TURN.with(|t| {
+            let v = t.get();
+            t.set(v + 1);
+            v
+        }) % bs.len();
+        let b = &mut bs[i];
+        let legal = b.generate_legal_moves();
+        let mut buf = Vec::new();
+        b.generate_pseudo_legal_non_quiescent_moves_with_buffer(&mut buf);
+        let _ = b.is_any_move_legal(&buf);
+        let _ = b.is_current_in_check();
+        let _ = b.calculate_zobrist_hash();
+        for mv in legal.iter().take(3) {
+            let _ = Bitboard::zobrist_xor(*mv);
+            let _ = b.uci_to_pgn(&mv.to_uci_string());
+            b.make(*mv);
+            let _ = b.is_valid();
+            b.unmake(*mv);
+        }
+        let _ = b.find_uci("a1a2");
+        let _ = b.uci_to_pgn("h8h1");
+        let _ = b.pgn_to_bb("Qz9");
+        let _ = b.make_all_uci(&["a2a3".to_string(), "a2a3".to_string()]);
+        let _ = Fen::from(&*b);
+    });
 }
 
 pub fn short(msg: &str) -> String {
